@@ -182,7 +182,7 @@ pub proof fn lemma_list_member(slots: Map<nat, SlotW>, l: Seq<nat>, c: int, i: i
 /// the list invariant survives a change of slots that are not members of the list
 pub proof fn lemma_list_untouched(slots: Map<nat, SlotW>, slots1: Map<nat, SlotW>, l: Seq<nat>, c: int)
     requires list_ok(slots, l, c),
-        forall|i: int| 0 <= i < l.len() ==> #[trigger] slots1.dom().contains(l[i]) && slots1[l[i]] == slots[l[i]],
+        forall|i: int| #![trigger slots1.dom().contains(l[i])] 0 <= i < l.len() ==> slots1.dom().contains(l[i]) && slots1[l[i]] == slots[l[i]],
     ensures list_ok(slots1, l, c)
 {
     reveal(list_ok);
@@ -193,6 +193,8 @@ pub proof fn lemma_list_untouched(slots: Map<nat, SlotW>, slots1: Map<nat, SlotW
         &&& slots1[l[i]].c == SlotC::Free(nxt(l, i))
     } by {
         assert(slots.dom().contains(l[i]));
+        assert(slots1.dom().contains(l[i]));
+        assert(slots1[l[i]] == slots[l[i]]);
     }
 }
 /// members of a free list are Free slots of that class; any other slot is on no such list
